@@ -159,6 +159,16 @@ func randFieldType(rng *rand.Rand, o TypeOpts, depth int) reflect.Type {
 				if rng.Intn(3) == 0 {
 					kt = []reflect.Type{TInt, TInt32, TUint8, TInt64, TGKey, TUint64}[rng.Intn(6)]
 				}
+				if o.SliceOfSlice && rng.Intn(4) == 0 {
+					// the member of a map is itself a collection: map[K][]leaf, map[K][n]leaf, map[K]map[string]leaf
+					switch rng.Intn(3) {
+					case 0:
+						return reflect.MapOf(kt, reflect.SliceOf(leaf()))
+					case 1:
+						return reflect.MapOf(kt, reflect.ArrayOf(1+rng.Intn(2), leaf()))
+					}
+					return reflect.MapOf(kt, reflect.MapOf(TString, leaf()))
+				}
 				return reflect.MapOf(kt, elem())
 			}
 		case 10:
